@@ -150,6 +150,7 @@ def run_walks(ctx, oracle_cls, *, n_walks: int, steps: int, profile: str, cfg_kw
                     break
         if not walk.failures and walk.aborted is None:
             walk.oracle.finish()
+        getattr(walk.oracle, "close", lambda: None)()  # scratch directories of failed / aborted walks
         if walk.aborted:
             col.event(f"aborted:{walk.aborted}")
             det = getattr(walk, "aborted_detail", None)
@@ -207,6 +208,7 @@ def replay_trace(obj: dict, oracle_cls, col, oracle_kwargs=None) -> list[tuple[s
             break
     if not walk.failures and walk.aborted is None:
         walk.oracle.finish()
+    getattr(walk.oracle, "close", lambda: None)()
     for b, m in walk.failures:
         col.fail(b, m, {"init": obj["init"], "ops": obj["ops"][: len(walk.world.trace)]})
     return walk.failures
